@@ -515,3 +515,18 @@ Theorem c06_record_lookup :
   (forall rs rs' addr, Permutation rs rs' -> disjoint_recs rs -> find_record rs addr = find_record rs' addr).
 Proof. exact (conj find_record_spec find_record_perm). Qed.
 Print Assumptions c06_record_lookup.
+
+(* the extracted entry points (C06/GenDriver.v, over the generated tables) equal the hand-written drivers of
+   C06/Driver.v that C07's model builds on; a single-record M case is the A case *)
+Theorem c06_gen_driver_is_driver :
+  (forall w lookup initaddr initsize regs membase mem init deltas names,
+     run_mock_gen w lookup initaddr initsize regs membase mem init deltas names =
+     run_mock w lookup initaddr initsize regs membase mem init deltas names) /\
+  (forall k ctx valid stackbase stack initaddr initsize init deltas,
+     run_real_gen k ctx valid stackbase stack initaddr initsize init deltas =
+     run_real k ctx valid stackbase stack initaddr initsize init deltas) /\
+  (forall w lookup regs membase mem r names,
+     run_mock_multi_gen w lookup regs membase mem [r] names =
+     run_mock w lookup (fst (c_init r)) (c_size r) regs membase mem (snd (c_init r)) (c_add r) names).
+Proof. exact gen_driver_is_driver. Qed.
+Print Assumptions c06_gen_driver_is_driver.
